@@ -781,8 +781,9 @@ def open_text(fname):
         buffering=FILE_READ_BUFFER_SIZE,
         encoding=ENCODING,
         errors=ENCODING_ERRS,
-        # do not translate '\r' and '\r\n' into '\n'
-        newline="",
+        # do not translate '\r' and '\r\n' into '\n', and do not end
+        # a line on a lone '\r' either (procfs lines end with '\n')
+        newline="\n",
     )
     try:
         # Dictates per-line read(2) buffer size. Defaults is 8k. See:
